@@ -245,8 +245,33 @@ def run(ctx):
         ok = len(cl) == 1 and cl[0] in prog.fns
         if ok:
             cf = prog.fns[cl[0]]
+
+            def keeps_other_addresses(f, e, depth=0):
+                """does the predicate come out true exactly for elements whose address differs from the given one?  'ne' / 'eq' / None;
+                `!`, and a call of another closure of the same function (`!is_match(b)`), are looked through"""
+                while e[0] in ("ref", "deref"):
+                    e = e[1]
+                if e[0] == "bin" and e[1] in ("Ne", "Eq") and "address" in expr_str(e):
+                    return e[1].lower()
+                if e[0] == "un" and e[1] == "Not":
+                    r_ = keeps_other_addresses(f, e[2], depth + 1)
+                    return {"ne": "eq", "eq": "ne"}.get(r_)
+                if e[0] == "call" and depth < 3:
+                    g = prog.fns.get(str(e[1]))
+                    if g is None:
+                        for x in expr_walk(e):
+                            if x[0] == "agg" and isinstance(x[1], tuple) and x[1][0] == "closure" and x[1][1] in prog.fns:
+                                g = prog.fns[x[1][1]]
+                    if g is None and re.search(r"ops::function::Fn(Mut|Once)?<.*>>::call(_mut|_once)?$", str(e[1])):
+                        # a call through a captured closure value: the only other closure of the enclosing function
+                        sib = [n_ for n_ in prog.fns if n_.startswith(rem.name + "::{closure") and n_ != f.name and "::{closure" not in n_[len(rem.name) + 3:]]
+                        if len(sib) == 1:
+                            g = prog.fns[sib[0]]
+                    if g is not None and g.d.get("defkind") == "Closure":
+                        return keeps_other_addresses(g, g.local_expr(0, 8, stop={"named"}), depth + 1)
+                return None
             e = cf.local_expr(0, 8, stop={"named"})
-            ok = e[0] == "bin" and e[1] == "Ne" and "address" in expr_str(e)
+            ok = keeps_other_addresses(cf, e) == "ne"
     ctx.oblig(ok, {"remove": "retain(|b| b.address != address)"}, "order-preserving filter")
     if not ok:
         ctx.violation("remove-shape", rem.file_line(), "remove is not a retain(address != given): it may disturb the order or keep the breakpoint")
